@@ -179,6 +179,55 @@ mutual
         | .error e => .error e
 end
 
+def foldAlias (f : Folder) (outer : Nat) : Alias → Res Alias
+  | .proj id args => match foldArgs f outer args with
+      | .ok a => .ok (.proj id a)
+      | .error e => .error e
+  | .opaque id args => match foldArgs f outer args with
+      | .ok a => .ok (.opaque id a)
+      | .error e => .error e
+
+/-- derived `TypeFoldable for DomainGoal` -/
+def foldDomainGoal (f : Folder) (outer : Nat) : DomainGoal → Res DomainGoal
+  | .holds w => match foldWC f outer w with
+      | .ok w' => .ok (.holds w')
+      | .error e => .error e
+  | .wfTrait tr a => match foldArgs f outer a with
+      | .ok a' => .ok (.wfTrait tr a')
+      | .error e => .error e
+  | .wfTy t => match foldTy f outer t with
+      | .ok t' => .ok (.wfTy t')
+      | .error e => .error e
+  | .fromEnvTrait tr a => match foldArgs f outer a with
+      | .ok a' => .ok (.fromEnvTrait tr a')
+      | .error e => .error e
+  | .fromEnvTy t => match foldTy f outer t with
+      | .ok t' => .ok (.fromEnvTy t')
+      | .error e => .error e
+  | .normalize al t => match foldAlias f outer al with
+      | .ok al' => match foldTy f outer t with
+          | .ok t' => .ok (.normalize al' t')
+          | .error e => .error e
+      | .error e => .error e
+  | .isLocal t => match foldTy f outer t with
+      | .ok t' => .ok (.isLocal t')
+      | .error e => .error e
+  | .isUpstream t => match foldTy f outer t with
+      | .ok t' => .ok (.isUpstream t')
+      | .error e => .error e
+  | .isFullyVisible t => match foldTy f outer t with
+      | .ok t' => .ok (.isFullyVisible t')
+      | .error e => .error e
+  | .localImplAllowed tr a => match foldArgs f outer a with
+      | .ok a' => .ok (.localImplAllowed tr a')
+      | .error e => .error e
+  | .compatible => .ok .compatible
+  | .downstreamType t => match foldTy f outer t with
+      | .ok t' => .ok (.downstreamType t')
+      | .error e => .error e
+  | .reveal => .ok .reveal
+  | .objectSafe tr => .ok (.objectSafe tr)
+
 /-- The folder all of whose methods are the trait defaults: "a folder that changes nothing". -/
 def Folder.noop : Folder := {}
 
